@@ -20,6 +20,8 @@ use core::sync::atomic::AtomicUsize;
 use arc_swap_verif_rt::atomic::AtomicUsize;
 use core::sync::atomic::Ordering::*;
 
+#[cfg(arc_swap_verif)]
+pub use self::list::verif;
 pub(crate) use self::list::{LocalNode, Node};
 use super::RefCnt;
 
